@@ -178,6 +178,7 @@ class Explorer:
         self.reduced_by = collections.Counter()
         self.samples = []
         self.flags_touched = set()
+        self.visited_lex = set()
         for a in spec.accumulators:
             if a not in self.gm.nonterminals:
                 raise AnalysisError(f"spec {spec.name}: level accumulator `{a}` is not a nonterminal of the grammar "
@@ -360,6 +361,7 @@ class Explorer:
                 except NonUniform as e:
                     raise AnalysisError(f"spec {spec.name}: lexer not uniform on class {w.name}: {e}")
                 wit = self.render(ctx_words + [w])
+                self.visited_lex.add((cur.flags, w))
                 self.check_case(cur.flags, w, lr, wit)
                 if lr.raised:
                     self.add("O-accept", f"{spec.name}: lexer raises on `{w.show}`",
